@@ -28,7 +28,7 @@ ASSUMPTIONS = [
     "KeyFile.generate_key() (explicit regeneration API) is not part of the quantified histories",
 ]
 REQUIRED = ["op:enter", "op:exit", "op:encrypt", "op:decrypt", "op:external", "disk:absent", "disk:valid",
-            "disk:malformed", "enter:rejected", "enter:created", "outside-context-use"]
+            "disk:malformed", "enter:rejected", "enter:created", "outside-context-use", "exit:by-exception"]
 LEVEL_TEXT = (
     "Generated histories against an explicit reference model of the key-file life cycle, invariant checked after "
     "every step; shows the property on the explored histories and kills the listed mutants (key kept after "
@@ -64,7 +64,7 @@ def strategy(tier):
         st.fixed_dictionaries({"op": st.just("new"), "path": st.integers(0, 1)}),
         st.fixed_dictionaries({"op": st.just("enter"), "obj": idx}),
         st.fixed_dictionaries({"op": st.just("enter"), "obj": idx}),
-        st.fixed_dictionaries({"op": st.just("exit"), "obj": idx}),
+        st.fixed_dictionaries({"op": st.just("exit"), "obj": idx, "exc": st.sampled_from([False, False, True])}),
         st.fixed_dictionaries({"op": st.just("encrypt"), "obj": idx, "method": st.sampled_from(["xor", "aes", "best"]),
                                "text": st.binary(max_size=40)}),
         st.fixed_dictionaries({"op": st.just("decrypt"), "obj": idx, "ct": idx}),
@@ -266,7 +266,13 @@ def run_case(case, R):
                 if o.depth == 0:
                     continue
                 R.label("op:exit")
-                o.real.__exit__(None, None, None)
+                if op.get("exc"):
+                    # the with-block is left by an exception (a caller error, a failed decrypt): same bookkeeping
+                    R.label("exit:by-exception")
+                    boom = ValueError("error inside the with-block")
+                    o.real.__exit__(ValueError, boom, None)
+                else:
+                    o.real.__exit__(None, None, None)
                 o.depth -= 1
                 if o.depth == 0:
                     o.key = None
